@@ -700,6 +700,154 @@ fn random_json(rng: &mut Rng, depth: u32) -> serde_json::Value {
     }
 }
 
+
+// ---------------------------------------------------------------------------------------------
+// JSON text layer: the float text functions are external to the model; the harness supplies them
+// as a table computed with Rust's own conversions
+fn f64_json_text(f: f64) -> String {
+    serde_json::to_string(&serde_json::Value::from(f)).unwrap_or_default()
+}
+/// writer entries for every float the model may have to write for `v`
+fn fmt_entries(v: &V, out: &mut Vec<String>) {
+    match v {
+        V::Float(f) if f.is_finite() => out.push(format!("b{:016x}={}", f.to_bits(), hex(f64_json_text(*f).as_bytes()))),
+        V::Int(i) | V::IntBig(i) if i.to_i64().is_none() => {
+            let f = i.to_f64().unwrap_or(f64::NAN);
+            if f.is_finite() {
+                out.push(format!("i{}={}", i, hex(f64_json_text(f).as_bytes())));
+            }
+        }
+        V::List(xs) => xs.iter().for_each(|x| fmt_entries(x, out)),
+        V::Dict(kvs) => kvs.iter().for_each(|(_, x)| fmt_entries(x, out)),
+        _ => {}
+    }
+}
+/// parser entries: every maximal run of number characters outside strings, and each of its
+/// prefixes, with the f64 Rust's correctly rounded parser gives (omitted when not finite)
+fn parse_entries(text: &str, out: &mut Vec<String>) {
+    let cs: Vec<char> = text.chars().collect();
+    let mut i = 0;
+    let mut in_str = false;
+    while i < cs.len() {
+        let c = cs[i];
+        if in_str {
+            if c == '\\' {
+                i += 2;
+                continue;
+            }
+            if c == '"' {
+                in_str = false;
+            }
+            i += 1;
+            continue;
+        }
+        if c == '"' {
+            in_str = true;
+            i += 1;
+            continue;
+        }
+        if c == '-' || c.is_ascii_digit() {
+            let mut j = i;
+            while j < cs.len() && (cs[j].is_ascii_digit() || "+-.eE".contains(cs[j])) && j - i < 400 {
+                j += 1;
+            }
+            for k in i + 1..=j {
+                let tok: String = cs[i..k].iter().collect();
+                if let Ok(f) = tok.parse::<f64>() {
+                    if f.is_finite() && out.len() < 400 {
+                        out.push(format!("t{}={:016x}", hex(tok.as_bytes()), f.to_bits()));
+                    }
+                }
+            }
+            i = j.max(i + 1);
+            continue;
+        }
+        i += 1;
+    }
+}
+/// the texts the writer produces for the floats of `v` (the parser will meet them again)
+fn fmt_entries_texts(v: &V, out: &mut Vec<String>) {
+    match v {
+        V::Float(f) if f.is_finite() => out.push(f64_json_text(*f)),
+        V::Int(i) | V::IntBig(i) if i.to_i64().is_none() => {
+            let f = i.to_f64().unwrap_or(f64::NAN);
+            if f.is_finite() {
+                out.push(f64_json_text(f));
+            }
+        }
+        V::List(xs) => xs.iter().for_each(|x| fmt_entries_texts(x, out)),
+        V::Dict(kvs) => kvs.iter().for_each(|(_, x)| fmt_entries_texts(x, out)),
+        _ => {}
+    }
+}
+fn table(mut e: Vec<String>) -> String {
+    e.sort();
+    e.dedup();
+    if e.is_empty() { "-".into() } else { e.join(",") }
+}
+fn depth_of(v: &V) -> usize {
+    match v {
+        V::List(xs) => 1 + xs.iter().map(depth_of).max().unwrap_or(0),
+        V::Dict(kvs) => 1 + kvs.iter().map(|(_, x)| depth_of(x)).max().unwrap_or(0),
+        _ => 0,
+    }
+}
+/// a string exercising the writer's escape table
+fn escapy_string(rng: &mut Rng) -> String {
+    let n = rng.below(10);
+    (0..n)
+        .map(|_| match rng.below(6) {
+            0 => char::from_u32(rng.below(0x20) as u32).unwrap(),
+            1 => *rng.pick(&['"', '\\', '/', '\u{7f}', '\u{8}', '\u{c}', '\n', '\r', '\t', '\u{0}', '\u{1f}', ' ', 'u']),
+            2 => *rng.pick(&['\u{80}', '\u{d7ff}', '\u{e000}', '\u{ffff}', '\u{10000}', '\u{10ffff}', 'é', '€', '😀', '\u{2028}', '\u{feff}']),
+            _ => (0x20 + rng.below(0x5f) as u8) as char,
+        })
+        .collect()
+}
+fn escapy_val(rng: &mut Rng, depth: u32) -> V {
+    let top = if depth == 0 { 4 } else { 7 };
+    match rng.below(top) {
+        0 => V::Str(escapy_string(rng)),
+        1 => random_val(rng, 0, true, false),
+        2 => V::Str(random_string(rng, 8)),
+        3 => V::Float(random_f64(rng, true)),
+        4 | 5 => V::List((0..rng.below(4)).map(|_| escapy_val(rng, depth - 1)).collect()),
+        _ => {
+            let mut kvs: Vec<(String, V)> = vec![];
+            for _ in 0..rng.below(5) {
+                let k = if rng.chance(1, 2) { escapy_string(rng) } else { random_string(rng, 3) };
+                if kvs.iter().any(|(kk, _)| *kk == k) {
+                    continue;
+                }
+                kvs.push((k, escapy_val(rng, depth - 1)));
+            }
+            V::Dict(kvs)
+        }
+    }
+}
+fn nest(leaf: V, depth: u64, dicts: bool, rng: &mut Rng) -> V {
+    let mut v = leaf;
+    for _ in 0..depth {
+        v = if dicts && rng.chance(1, 2) { V::Dict(vec![("k".into(), v)]) } else { V::List(vec![v]) };
+    }
+    v
+}
+
+const JSON_TEXTS: &[&str] = &[
+    "\"\\ud83d\\ude00\"", "\"\\uD83D\\uDE00 \\u00e9\\u00E9 \\/ \\b\\f\\n\\r\\t\\\"\\\\\"", "\"\\ud83d\"", "\"\\ud83d x\"", "\"\\ud83d\\n\"",
+    "\"\\ud83d\\u0041\"", "\"\\ude00\"", "\"\\udc00\\ud800\"", "\"\\ud800\\udbff\"", "\"\\udbff\\udfff\"", "\"\\ud800\\udc00\"", "\"\\ud7ff\\ue000\"",
+    "\"\\u12\"", "\"\\u12g4\"", "\"\\x41\"", "\"\\'\"", "\"\\a\"", "\"\\", "\"abc", "\"a\nb\"", "\"a\tb\"", "\"\u{0}\"", "\"\u{1f}\"", "\"\u{7f}\"", "\"\u{2028}\"",
+    "-0", "-0.0", "0", "00", "01", "-01", "1.", ".5", "1.5", "-1.5e3", "1E+5", "1e-5", "1e", "1e+", "-", "--1", "+1", "0x10", "1_0", "1e400", "-1e400", "1e-400",
+    "18446744073709551615", "18446744073709551616", "9223372036854775807", "9223372036854775808", "-9223372036854775808", "-9223372036854775809",
+    "123456789012345678901234567890", "-123456789012345678901234567890", "0.1e1", "0e0", "-0e-0", "1.0", "100000000000000000000.0", "0.30000000000000004",
+    "4.9e-324", "1.7976931348623157e308", "1.7976931348623159e308", "2.2250738585072014e-308",
+    " 1", "1 ", "\t\n\r 1 \r\n\t", "\u{feff}1", "1\u{a0}", "\u{c}1", "1 2", "1,", "[1]]", "[1] x",
+    "[]", "[ ]", "[\n]", "{}", "{ }", "[1,]", "[,1]", "[1,,2]", "[1 2]", "[", "]", "{", "}", "[}", "{]", "[1", "{\"a\"", "{\"a\":", "{\"a\":1", "{\"a\":1,", "{\"a\":1,}", "{,}",
+    "{\"a\" 1}", "{\"a\":1 \"b\":2}", "{a:1}", "{1:2}", "{null:1}", "{\"a\":1,\"a\":2}", "{\"b\":1,\"a\":2,\"b\":3,\"\":[]}", "{\"a\":{\"a\":{\"b\":1,\"a\":2}}}",
+    "{ \"k\" : [ 1 , 2 ] , \"j\" : { } }", "[1 ,2]", "[1, 2 ]", "null", "nul", "nulll", "true", "tru", "false", "fals", "falsey", "n", "t", "f", "NULL", "True", "None", "NaN", "Infinity", "-Infinity",
+    "", " ", "\"\"", "[\"\"]", "{\"\":\"\"}", "[[[[[[[[[[[[]]]]]]]]]]]]", "[null,true,false,0,\"\",[],{}]", "'a'", "\"é😀\u{10ffff}\"", "[\"a\"\"b\"]", "\"a\"\"b\"", "[\"\\u0000\\u001f\"]",
+];
+
 fn hx(b: &[u8]) -> String {
     if b.is_empty() {
         "-".into()
@@ -1192,6 +1340,94 @@ impl Gen {
         }
     }
 
+    /// the JSON text layer: byte-for-byte text of json_encode, json_decode on texts, and the round trip
+    /// through the text model
+    fn gen_json_text(&mut self) -> Case {
+        match self.rng.below(12) {
+            0..=3 => {
+                // writer: escapes, non-ASCII, boundaries, empty containers, floats, unsorted keys
+                let shaped = self.rng.chance(2, 3);
+                let v = if self.rng.chance(2, 3) { escapy_val(&mut self.rng, 4) } else { random_val(&mut self.rng, 4, shaped, false) };
+                let mut e = vec![];
+                fmt_entries(&v, &mut e);
+                case("json_encode text", "json_encode($1)".into(), vec![Bind::Val(v.clone())], Render::Canon,
+                     format!("json_text {} {}", v.token(), table(e)), true)
+            }
+            4 => {
+                // deep nesting: writer and round trip around the recursion limit of the parser
+                let d = *self.rng.pick(&[100u64, 126, 127, 128, 129, 150, 127, 128]);
+                let dicts = self.rng.chance(1, 2);
+                let leaf = random_val(&mut self.rng, 1, true, false);
+                let v = nest(leaf, d, dicts, &mut self.rng);
+                let mut e = vec![];
+                fmt_entries(&v, &mut e);
+                if self.rng.chance(1, 3) {
+                    return case("json_encode text(deep)", "json_encode($1)".into(), vec![Bind::Val(v.clone())], Render::Canon,
+                                format!("json_text {} {}", v.token(), table(e)), true);
+                }
+                let mut texts = vec![];
+                fmt_entries_texts(&v, &mut texts);
+                for t in &texts {
+                    parse_entries(t, &mut e);
+                }
+                let key = if depth_of(&v) >= 128 { "json_decode(json_encode(v))(depth>=128)" } else { "json_decode(json_encode(v)) via text" };
+                case(key, "json_decode(json_encode($1))".into(), vec![Bind::Val(v.clone())], Render::Canon,
+                     format!("json_rt_text {} {}", v.token(), table(e)), true)
+            }
+            5 | 6 => {
+                let v = if self.rng.chance(1, 2) { escapy_val(&mut self.rng, 4) } else { random_val(&mut self.rng, 4, true, false) };
+                let mut e = vec![];
+                fmt_entries(&v, &mut e);
+                let mut texts = vec![];
+                fmt_entries_texts(&v, &mut texts);
+                for t in &texts {
+                    parse_entries(t, &mut e);
+                }
+                case("json_decode(json_encode(v)) via text", "json_decode(json_encode($1))".into(), vec![Bind::Val(v.clone())], Render::Canon,
+                     format!("json_rt_text {} {}", v.token(), table(e)), true)
+            }
+            _ => {
+                // parser on texts: serde output (compact / pretty), hand-written, deep, damaged
+                let mut t = match self.rng.below(6) {
+                    0 => self.rng.pick(JSON_TEXTS).to_string(),
+                    1 => {
+                        let d = *self.rng.pick(&[126usize, 127, 128, 129, 200]);
+                        let (o, c) = if self.rng.chance(1, 2) { ("[", "]") } else { ("{\"a\":", "}") };
+                        format!("{}{}{}", o.repeat(d), self.rng.pick(&["1", "[]", "{}", "null", "\"x\""]), c.repeat(d))
+                    }
+                    2 => {
+                        let j = random_json(&mut self.rng, 4);
+                        serde_json::to_string_pretty(&j).unwrap()
+                    }
+                    3 => {
+                        let v = escapy_val(&mut self.rng, 3);
+                        serde_json::to_string(&serde_json::Value::String(match &v { V::Str(s) => s.clone(), _ => escapy_string(&mut self.rng) })).unwrap()
+                    }
+                    _ => {
+                        let j = random_json(&mut self.rng, 4);
+                        serde_json::to_string(&j).unwrap()
+                    }
+                };
+                if self.rng.chance(1, 3) {
+                    // damage: delete / insert / replace one character
+                    let mut cs: Vec<char> = t.chars().collect();
+                    let junk = ['"', '\\', ',', ':', '[', ']', '{', '}', ' ', '\n', '0', '1', '-', '.', 'e', 'u', 'n', '\u{0}', '\u{1f}', 'é', '/', 'd', '8'];
+                    match self.rng.below(3) {
+                        0 if !cs.is_empty() => { let i = self.rng.below(cs.len() as u64) as usize; cs.remove(i); }
+                        1 => { let i = self.rng.below(cs.len() as u64 + 1) as usize; cs.insert(i, *self.rng.pick(&junk)); }
+                        _ if !cs.is_empty() => { let i = self.rng.below(cs.len() as u64) as usize; cs[i] = *self.rng.pick(&junk); }
+                        _ => {}
+                    }
+                    t = cs.into_iter().collect();
+                }
+                let mut e = vec![];
+                parse_entries(&t, &mut e);
+                case("json_decode text", "json_decode($1)".into(), vec![Bind::Str(t.clone())], Render::Canon,
+                     format!("json_parse {} {}", hx(t.as_bytes()), table(e)), true)
+            }
+        }
+    }
+
     fn gen_json(&mut self, rn: &mut Runner) -> Case {
         match self.rng.below(10) {
             0 | 1 => {
@@ -1435,7 +1671,8 @@ fn main() {
                 65..=73 => g.gen_b64(),
                 74..=82 => g.gen_utf8(),
                 83..=87 => g.gen_chr(),
-                88..=97 => g.gen_json(&mut rn),
+                88..=93 => g.gen_json(&mut rn),
+                94..=97 => g.gen_json_text(),
                 _ => g.gen_gzip(&mut rn),
             };
             pending.push(c);
